@@ -278,6 +278,16 @@ func cmdCheck(args []string) int {
 			out := replayCexOnce(scratch, ov, pi, w, tier, 1000+i)
 			totalReplays++
 			he.DiffRuns++
+			if out.Verdict == "reproduced" {
+				// a native failure of a path the engine let pass is reported only if it is
+				// repeatable (not a hiccup of the machine: hang and leak detection use timeouts)
+				again := replayCexOnce(scratch, ov, pi, w, tier, 2000+i)
+				totalReplays++
+				if again.Verdict != "reproduced" {
+					fmt.Printf("NOTE property=%s harness=%s a native run failed once and passed when repeated: %s\n", id, h.Fn, firstLine(out.Detail))
+					out = again
+				}
+			}
 			switch out.Verdict {
 			case "passed":
 				he.DiffAgree++
